@@ -154,7 +154,7 @@ pub fn plan_attacker(w: &World, knobs: &Knobs, actor: &mut Actor, l: &Ledger) ->
             let x = 1 + rng.below(1_000_000) as u128;
             let (pl, pu) = (crate::model::sqrt_price_of_tick(p.lower), crate::model::sqrt_price_of_tick(p.upper));
             let t = pool.tick_current_index;
-            let pr = pool.sqrt_price.clamp(pl, pu);
+            let pr = if pl <= pu { pool.sqrt_price.clamp(pl, pu) } else { pool.sqrt_price };
             // per-unit cost n/d of token A (if any) and token B (if any) at the current price
             let mut wraps: Vec<u128> = Vec::new();
             let two64 = crate::model::two64();
